@@ -37,6 +37,8 @@ type c12Hold struct {
 	Writer int    `json:"writer"` // 1-based index of the background writer
 	X      string `json:"writer_step"`
 	Y      string `json:"until_caller_step"`
+	// CallerWaits inverts the hold: the caller is parked at step Y until writer Writer reaches step X.
+	CallerWaits bool `json:"caller_waits_for_writer,omitempty"`
 }
 
 type c12Ctl struct {
@@ -59,6 +61,8 @@ type c12Ctl struct {
 	sleepRng  *rand.Rand
 	liveWrite int // background writers between recv and return
 	overtook  bool
+	reachedX  chan struct{} // closed when the hold's writer reaches step X (caller-waits holds)
+	xDone     bool
 }
 
 func (c *c12Ctl) signalY(name string) {
@@ -98,6 +102,11 @@ func (c *c12Ctl) step(name string) {
 	}
 	c.events = append(c.events, role+":"+name)
 	park := false
+	parkCaller := false
+	if role != "caller" && c.hold != nil && c.hold.CallerWaits && !c.xDone && w == c.hold.Writer && xname == c.hold.X {
+		c.xDone = true
+		close(c.reachedX)
+	}
 	if role == "caller" {
 		yname := name
 		switch name {
@@ -116,8 +125,15 @@ func (c *c12Ctl) step(name string) {
 				c.overtook = true
 			}
 		}
-		c.signalY(yname)
-	} else if c.hold != nil && !c.parked && w == c.hold.Writer && xname == c.hold.X {
+		if c.hold != nil && c.hold.CallerWaits {
+			if !c.parked && yname == c.hold.Y {
+				c.parked = true
+				parkCaller = true
+			}
+		} else {
+			c.signalY(yname)
+		}
+	} else if c.hold != nil && !c.hold.CallerWaits && !c.parked && w == c.hold.Writer && xname == c.hold.X {
 		c.parked = true
 		park = true
 	}
@@ -126,7 +142,20 @@ func (c *c12Ctl) step(name string) {
 		sleep = time.Duration(c.sleepRng.Intn(2000)) * time.Microsecond
 	}
 	ch := c.reachedY
+	chx := c.reachedX
 	c.mu.Unlock()
+	if parkCaller {
+		select {
+		case <-chx:
+			c.mu.Lock()
+			c.byCaller = true
+			c.mu.Unlock()
+		case <-time.After(c.holdT):
+			c.mu.Lock()
+			c.timedOut = true
+			c.mu.Unlock()
+		}
+	}
 	if park {
 		select {
 		case <-ch:
@@ -173,7 +202,13 @@ func c12Enumerate(quick bool) []c12Sched {
 		for k := 1; k <= w.writers(); k++ {
 			for _, x := range c12Xs {
 				for _, y := range c12Ys {
-					out = append(out, c12Sched{W: w, Hold: &c12Hold{k, x, y}, Procs: 16})
+					out = append(out, c12Sched{W: w, Hold: &c12Hold{Writer: k, X: x, Y: y}, Procs: 16})
+				}
+			}
+			// inverted holds: the caller waits at a step until this writer has reached a step
+			for _, y := range []string{"push.handoff.next", "finalise.enter", "finalise.lastwrite"} {
+				for _, x := range []string{"write.register", "write.encode#last", "write.return"} {
+					out = append(out, c12Sched{W: w, Hold: &c12Hold{Writer: k, X: x, Y: y, CallerWaits: true}, Procs: 16})
 				}
 			}
 		}
@@ -186,7 +221,7 @@ func init() {
 		ID:    "C12",
 		Level: "exploration",
 		Rule: "one schedule per case on a concurrent-mode sorter (chunk 3..8, 1..4 full chunks, last chunk 0, 1 or c-1, unique values): (i) enumerated holds - each background writer parked at each of {recv, register, encode#1, encode#last, sync, return} until the caller reaches each of " +
-			"{hand-off of the next chunk, finalise.enter, finalise.lastwrite, finalise.seek, first Pull} (released after a bounded wait so the harness cannot create a deadlock); (ii) seeded random sleeps of 0-2 ms at every hook; (iii) hooks silent with GOMAXPROCS in {1,2,16}. " +
+			"{hand-off of the next chunk, finalise.enter, finalise.lastwrite, finalise.seek, first Pull}, and inverted holds in which the caller is parked at {next hand-off, finalise.enter, finalise.lastwrite} until the writer has reached {register, encode#last, return} (all released after a bounded wait so the harness cannot create a deadlock); (ii) seeded random sleeps of 0-2 ms at every hook; (iii) hooks silent with GOMAXPROCS in {1,2,16}. " +
 			"Oracle: Finalise returned => every value pulled exactly once in order; race detector, panics and runtime deadlock detection through the child. Non-trivial = >=1 background writer; distinct = hash of the (goroutine role, step) event order",
 		Batches: func(t string) int {
 			if t == "thorough" {
@@ -200,7 +235,7 @@ func init() {
 		Case:        c12Case,
 		MinDistinct: func(t string) int { return 150 },
 		Floors: func(string) map[string]int64 {
-			return map[string]int64{"schedules_run": 600, "holds_parked": 400, "holds_released_by_caller": 100, "random_sleep_schedules": 100, "plain_schedules": 100, "values_pulled": 5000, "hook_events": 20000}
+			return map[string]int64{"schedules_run": 900, "holds_parked": 500, "holds_released_by_caller": 100, "caller_holds_released_by_writer": 60, "random_sleep_schedules": 100, "plain_schedules": 100, "values_pulled": 5000, "hook_events": 20000}
 		},
 		Assumptions: []string{"holds are placed only at the hook sites, which sit between critical sections; a hold ends when the caller reaches the named step or after a bounded wait (the wait only shapes which interleavings are explored, never a verdict)",
 			"deadlock is decided by the Go runtime's all-goroutines-asleep detector in the child (no timers are pending outside holds)"},
@@ -236,7 +271,7 @@ func c12Run(r *obs.Run, s c12Sched) {
 	defer os.RemoveAll(scratch)
 	old := runtime.GOMAXPROCS(s.Procs)
 	defer runtime.GOMAXPROCS(old)
-	ctl := &c12Ctl{callerG: curGID(), writerOf: map[int64]int{}, encSeen: map[int]int{}, chunk: s.W.Chunk, hold: s.Hold, reachedY: make(chan struct{}), holdT: 25 * time.Millisecond}
+	ctl := &c12Ctl{callerG: curGID(), writerOf: map[int64]int{}, encSeen: map[int]int{}, chunk: s.W.Chunk, hold: s.Hold, reachedY: make(chan struct{}), reachedX: make(chan struct{}), holdT: 25 * time.Millisecond}
 	if s.Sleep {
 		ctl.sleepRng = rand.New(rand.NewSource(rng.Int63()))
 	}
@@ -312,7 +347,9 @@ func c12Run(r *obs.Run, s c12Sched) {
 	if ctl.parked {
 		r.Count("holds_parked", 1)
 	}
-	if ctl.byCaller {
+	if ctl.byCaller && s.Hold != nil && s.Hold.CallerWaits {
+		r.Count("caller_holds_released_by_writer", 1)
+	} else if ctl.byCaller {
 		r.Count("holds_released_by_caller", 1)
 	}
 	if ctl.timedOut {
